@@ -43,10 +43,26 @@ def seeded_table():
     return '\n'.join(rows)
 
 
+def status_table():
+    rows = ['| id | tests of the quick tier: generated / evaluated / non-trivial | known-finding hits | wall |', '|---|---|---|---|']
+    for i in range(1, 21):
+        pid = f'C{i:02d}'
+        ep = os.path.join(V, 'evidence', pid + '.json')
+        if not os.path.exists(ep):
+            continue
+        e = json.load(open(ep))
+        c = e['coverage']
+        tests = '; '.join(f"{n}: {t['generated']} / {t['evaluations']} / {t['nontrivial']}" + (' (exhaustive)' if n in c.get('exhaustive_tests', []) else '')
+                          for n, t in c['per_test'].items())
+        kf = ', '.join(f'{k}: {v}' for k, v in c.get('known_finding_hits', {}).items()) or '-'
+        rows.append(f"| {pid} | {tests} | {kf} | {e['wall_s']:.0f} s ({e['tier']}, seed {e['seed']}) |")
+    return '\n'.join(rows)
+
+
 def main():
     p = os.path.join(V, 'DESIGN.md')
     s = open(p).read()
-    for name, gen in (('FINDINGS', findings_table), ('SEEDED', seeded_table)):
+    for name, gen in (('FINDINGS', findings_table), ('SEEDED', seeded_table), ('STATUS', status_table)):
         a, b = f'<!-- BEGIN {name} -->', f'<!-- END {name} -->'
         if a not in s:
             raise SystemExit(f'marker {a} missing')
